@@ -42,16 +42,17 @@ class Tree:
         self.allow_text = allow_text
         self.wrap = wrap            # the config's wrap text (None, str or list of non-empty lines)
         self.implicit_used = False
+        self.anon_values = 0
         self.budget = rng.randint(1, max_nodes)
         self.values = 0
         self.fields_written = 0
 
-    def field_value(self, multiline=False):
+    def field_value(self, multiline=False, named_only=False):
         "A value (text or attribute value) with explicit fields; returns token string"
         rng = self.rng
         self.values += 1
         k = self.values
-        if maybe(rng, 0.12):
+        if not named_only and maybe(rng, 0.12):
             # a single anonymous field: the oracle cannot attribute an empty placeholder to a
             # value, so anonymous fields never share a value with other fields
             self.fields_written += 1
@@ -79,12 +80,14 @@ class Tree:
             node['cls'].append(pick(rng, PLAIN_CLASSES))
         if not node['name'] and not node['cls']:
             node['cls'].append('c')
-        if self.explicit and maybe(rng, 0.2):
-            # id / class values with explicit fields: they are output once more by comments
-            if maybe(rng, 0.5):
-                node['attrs'].append(('id', 'fields', self.field_value()))
-            else:
-                node['attrs'].append(('class', 'fields', pick(rng, ['item ', '', 'a b ']) + self.field_value()))
+        if self.explicit and maybe(rng, 0.25):
+            # id / class values with explicit fields: they are output once more by comments, and
+            # together by the indent formatters (primary attributes)
+            which = pick(rng, ['id', 'class', 'both', 'both'])
+            if which in ('id', 'both'):
+                node['attrs'].append(('id', 'fields', self.field_value(named_only=True)))
+            if which in ('class', 'both'):
+                node['attrs'].append(('class', 'fields', pick(rng, ['item ', '', 'a b ']) + self.field_value(named_only=True)))
         if maybe(rng, 0.45):
             used = set()
             for _ in range(rng.randint(1, 3)):
@@ -95,7 +98,10 @@ class Tree:
                 r = rng.random()
                 if self.explicit and r < 0.35:
                     node['attrs'].append((a, 'fields', self.field_value()))
-                elif r < 0.45:
+                elif r < 0.41:
+                    # boolean attribute (`name.`): never a tabstop, whatever the options
+                    node['attrs'].append((a, 'bool', None))
+                elif r < 0.47:
                     node['attrs'].append((a, 'empty', None))
                 elif r < 0.6:
                     node['attrs'].append((a, 'emptyq', None))
@@ -173,6 +179,8 @@ def print_item(it):
         for name, kind, val in it['attrs']:
             if kind == 'empty':
                 parts.append(name)
+            elif kind == 'bool':
+                parts.append(name + '.')
             elif kind == 'emptyq':
                 parts.append('%s=""' % name)
             elif kind == 'fields':
@@ -230,8 +238,14 @@ def count_with_wrap(items, wrap):
     return n
 
 
+ANON = __import__('re').compile(r'^\$\{\d+\}$')
+BOOLEANS = ()      # attribute names the config under generation declares boolean (set by the generator)
+INDENT_FORMATTER = False   # pug/slim/haml write a text value AND the children; html puts the children in place of the first field
+
+
 def count_tabstops(items, mult=1, k=1):
-    "Empty attribute values + empty non-self-closed leaves, with repetition"
+    """Invocations of output.field with an EMPTY placeholder: empty attribute values + empty
+    non-self-closed leaves (+ values that are one anonymous explicit field), with repetition"""
     n = 0
     for it in items:
         if it.get('repeat') == '*':
@@ -248,9 +262,14 @@ def count_tabstops(items, mult=1, k=1):
             n += count_tabstops(it['children'], m, k)
             continue
         for _name, kind, _val in it['attrs']:
-            if kind in ('empty', 'emptyq'):
+            if kind in ('empty', 'emptyq') and _name not in BOOLEANS:
+                n += m
+            elif kind == 'fields' and ANON.match(_val):
                 n += m
         if not it['children'] and not it['text'] and not it['selfclose']:
+            n += m
+        if it['text'] and it['text'][0] == 'fields' and ANON.match(it['text'][1]) and (INDENT_FORMATTER or not it['children']):
+            # (in the HTML formatter the children are output in place of the first field of the text)
             n += m
         n += count_tabstops(it['children'], m, k)
     return n
@@ -286,7 +305,8 @@ def gen_markup_explicit(rng, wrap=None):
     abbr = print_items(items)
     if t.fields_written == 0:
         return abbr, counted_meta(items, wrap)
-    return abbr, {'mode': 'explicit'}
+    meta = counted_meta(items, wrap)
+    return abbr, {'mode': 'explicit', 'expect_anon': meta['expect'], 'names': meta['names'], 'attrs': meta['attrs'], 'wrap': wrap}
 
 
 STYLE_ABBRS = ['m10', 'p10-20', 'bd1-s#fc0', 'bd', 'c', 'bg', 'f', 'trs', 'anim', 'bxsh', '@kf', '@m', '@f', '@ff', 'gt', 'trf',
@@ -338,7 +358,8 @@ def gen_c13(run_seed):
                                  ('output.formatForce', [['body'], ['p', 'li', 'div']], 0.2), ('output.formatSkip', [['html'], ['div', 'ul']], 0.2),
                                  ('comment.enabled', [True], 0.2), ('comment.after', ['\n<!-- /[#ID][.CLASS] -->', '<!-- /[.CLASS] -->'], 0.15),
                                  ('comment.before', ['<!-- [.CLASS] -->\n', ''], 0.1),
-                                 ('bem.enabled', [True], 0.15), ('inlineElements', [['span', 'em', 'b', 'i', 'strong', 'q'], []], 0.15)):
+                                 ('bem.enabled', [True], 0.15), ('inlineElements', [['span', 'em', 'b', 'i', 'strong', 'q'], []], 0.15),
+                                 ('output.booleanAttributes', [['foo', 'role'], ['data-a'], []], 0.2)):
                 if maybe(rng, p):
                     opts[key] = pick(rng, vals)
             if family in ('html', 'indent') and maybe(rng, 0.25):
@@ -377,14 +398,23 @@ def gen_c13(run_seed):
                                                  'text': bool(spec.get('text')), 'user_snippets': sorted(spec.get('snippets') or {})})
             op['c13'] = {'mode': 'positions'}
         else:
+            global BOOLEANS, INDENT_FORMATTER
+            BOOLEANS = tuple(spec['options'].get('output.booleanAttributes') or ())
+            INDENT_FORMATTER = spec.get('syntax') in INDENT_SYNTAXES
             if maybe(rng, 0.5):
                 op['abbr'], op['c13'] = gen_markup_counted(rng, spec.get('text'))
             else:
                 op['abbr'], op['c13'] = gen_markup_explicit(rng, spec.get('text'))
+            op['c13']['booleans'] = list(BOOLEANS)
+            op['c13']['formatter'] = 'indent' if INDENT_FORMATTER else 'html'
+            BOOLEANS = ()
+            INDENT_FORMATTER = False
         if maybe(rng, fault_rate):
             k = pick(rng, ['F3', 'F3', 'F5', 'F1'])
             if k == 'F3':
                 op['fault'] = {'kind': 'F3', 'frac': round(rng.random(), 4)}
+                if maybe(rng, 0.5):
+                    op['fault']['exc'] = pick(rng, ['TypeError', 'ValueError', 'KeyError', 'RuntimeError', 'AttributeError'])
             elif k == 'F5':
                 op['fault'] = {'kind': 'F5', 'mode': pick(rng, ['nth', 'func']), 'frac': round(rng.random(), 5), 'frac2': round(rng.random(), 5)}
             else:
